@@ -370,8 +370,8 @@ func (c *Conn) Write(b []byte) (int, error) {
 	c.writeBuf = append(c.writeBuf, b...)
 	for len(c.writeBuf) >= 5 {
 		length := uint32(c.writeBuf[3])<<8 | uint32(c.writeBuf[4])
-		if length > 16384 {
-			return 0, fmt.Errorf("%w: record length %d > 16384", ErrDecodeError, length)
+		if length > maxRecordLength {
+			return 0, fmt.Errorf("%w: record length %d > %d", ErrDecodeError, length, maxRecordLength)
 		}
 		sz := int(length) + 5
 		if sz > len(c.writeBuf) {
